@@ -12,8 +12,8 @@
      rockredis/t_zset.go         ZAdd, ZIncrBy, ZRem, ZRemRangeByScore/zRemRangeBytes, ZClear/zRemAll, ZCard, ZRange
      rockredis/t_list.go         lpush, lpop, LClear/lDelete, LLen, LRange
      rockredis/rockredis.go      rockCompactFilter.Filter / lazyExpireCheck (as the predicate [removable])
-   Times: [ts] is the timestamp of the raft entry (log time) and is a parameter of every write; [now] is the read-side
-   clock (time.Now() in the code), a parameter of every read and of HCLEAR (HClear calls HLen, which reads the clock).
+   Times: [ts] is the timestamp of the raft entry (log time) and is the only time a write depends on; [now] is the
+   read-side clock (time.Now() in the code), a parameter of every read.
    Stores are association lists; an element key carries the generation (ValueVersion) it was written under.
    Integer scores only (Z) for sorted sets; the second (score) index of a sorted set is not represented. *)
 From ZV Require Import Common.Bytes Expire.Consts.
@@ -50,7 +50,7 @@ Definition renew (p : policy) (h : hdr) (ts : Z) : hdr :=
 Definition set_expire (h : hdr) (when : Z) : option hdr :=
   if when >=? max_u32 - 1 then None else Some (mkH (when mod (max_u32 + 1)) (h_ver h)).
 
-Definition wrap64 (z : Z) : Z := (z + 9223372036854775808) mod 18446744073709551616 - 9223372036854775808.
+Definition in_int64 (z : Z) : bool := (-9223372036854775808 <=? z) && (z <=? 9223372036854775807).
 
 (* ---------- store ---------- *)
 Inductive ty := TK | TH | TS | TZ | TL.
@@ -237,23 +237,28 @@ Definition do_incrby p s ts k d : store * reply :=
       let cur := match kv_cur ov ex with None => Some 0 | Some b => parse_int b end in
       match cur with
       | None => (s, RErr)
-      | Some n => let n' := wrap64 (n + d) in (kv_put s k h (format_int n'), RInt n')
+      | Some n => if in_int64 (n + d) then (kv_put s k h (format_int (n + d)), RInt (n + d)) else (s, RErr)
       end
   end.
+(* Append: an empty value on a live key only reports the length; otherwise (re)write header + value *)
 Definition do_append p s ts k v : store * reply :=
-  match v with
-  | [] => (s, RInt 0)
-  | _ => match kv_prepare p s ts k with
-         | (h, ov, ex) =>
-             let cur := match kv_cur ov ex with Some b => b | None => [] end in
-             if Z.of_nat (length cur + length v) >? max_value_size then (s, RErr)
-             else (kv_put s k h (cur ++ v), RInt (Z.of_nat (length cur + length v)))
-         end
+  match kv_prepare p s ts k with
+  | (h, ov, ex) =>
+      match v, kv_cur ov ex with
+      | [], Some b => (s, RInt (Z.of_nat (length b)))
+      | _, c =>
+          let cur := match c with Some b => b | None => [] end in
+          if Z.of_nat (length cur + length v) >? max_value_size then (s, RErr)
+          else (kv_put s k h (cur ++ v), RInt (Z.of_nat (length cur + length v)))
+      end
   end.
 Definition zeros (n : nat) : bytes := repeat 0%N n.
+(* SetRange: an empty value only reports the length of a live value *)
 Definition do_setrange p s ts k off v : store * reply :=
   match v with
-  | [] => (s, RInt 0)
+  | [] => match kv_raw p s ts k with
+          | (_, ov, ex) => (s, RInt (match kv_cur ov ex with Some b => Z.of_nat (length b) | None => 0 end))
+          end
   | _ =>
       if (Z.of_nat (length v) + off >? max_value_size) || (off <? 0) then (s, RErr)
       else match kv_prepare p s ts k with
@@ -295,6 +300,9 @@ Definition incr_size (s : store) (t : ty) (k : bytes) (h : hdr) (ud : option (Z 
   let n := size_of ud + delta in
   if n <=? 0 then meta_del s t k else meta_put s t k (mkM h n 0).
 
+Definition list_meta_of (ud : option (Z * Z)) : Z * Z * Z :=       (* head, tail, size: parseListMeta *)
+  match ud with None => (list_initial_seq, list_initial_seq, 0) | Some (a, b) => (a, b, b - a + 1) end.
+
 (* collExpire / collPersist (+ ExpireAt of the policy) *)
 Definition coll_set_expire (p : policy) (s : store) (ts : Z) (t : ty) (k : bytes) (when : Z) : store * reply :=
   match coll_header p s ts t k with
@@ -333,35 +341,15 @@ Definition do_expire p s ts (t : ty) k dur : store * reply :=
 Definition do_persist p s ts (t : ty) k : store * reply :=
   match t with TK => kv_set_expire p s ts k 0 | _ => coll_set_expire p s ts t k 0 end.
 
-(* clear commands: under wait_compact only the meta is deleted; under local deletion the elements too.
-   HClear computes the length with the READ clock (HLen), the deletion decision with the log time. *)
-Definition coll_clear (p : policy) (s : store) (ts now : Z) (t : ty) (k : bytes) : store * reply :=
+(* clear commands (HClear/hDeleteAll, sDelete, zRemAll, lDelete): under wait_compact only the meta is deleted;
+   under local deletion the elements too. Nothing happens on a collection that does not exist or is expired. *)
+Definition coll_clear (p : policy) (s : store) (ts : Z) (t : ty) (k : bytes) : store * reply :=
   let del (h : hdr) := match p with Compact => meta_del s t k | Local => el_del_gen (meta_del s t k) t k (h_ver h) end in
-  match t with
-  | TH =>
-      match coll_header p s now TH k with
-      | (_, udn, exn) =>
-          let hlen := if exn then 0 else size_of udn in
-          if hlen =? 0 then (s, RInt 0)
-          else match coll_header p s ts TH k with
-               | (h, ud, ex) => if not_exist_or_expired ud ex then (s, RInt 1) else (del h, RInt 1)
-               end
-      end
-  | TL =>
-      match coll_header p s ts t k with
-      | (h, ud, ex) =>
-          if not_exist_or_expired ud ex then (s, RInt 0)
-          else match ud with
-               | Some (a, b) => if b - a + 1 =? 0 then (s, RInt 0) else (del h, RInt 1)
-               | None => (s, RInt 0)
-               end
-      end
-  | _ =>
-      match coll_header p s ts t k with
-      | (h, ud, ex) =>
-          if not_exist_or_expired ud ex then (s, RInt 0)
-          else if size_of ud =? 0 then (s, RInt 0) else (del h, RInt 1)
-      end
+  match coll_header p s ts t k with
+  | (h, ud, ex) =>
+      if not_exist_or_expired ud ex then (s, RInt 0)
+      else let n := match t with TL => snd (list_meta_of ud) | _ => size_of ud end in
+           if n =? 0 then (s, RInt 0) else (del h, RInt 1)
   end.
 
 (* ---------- hash ---------- *)
@@ -410,8 +398,7 @@ Definition do_hincrby p s ts k f d : store * reply :=
   let cur := match fv with None => Some 0 | Some e => parse_int (eval_bytes e) end in
   match cur with
   | None => (s, RErr)
-  | Some n => let n' := wrap64 (n + d) in
-              (fst (do_hset p s ts k f (format_int n') false), RInt n')
+  | Some n => if in_int64 (n + d) then (fst (do_hset p s ts k f (format_int (n + d)) false), RInt (n + d)) else (s, RErr)
   end.
 
 (* ---------- set ---------- *)
@@ -473,8 +460,6 @@ Definition do_zremrangebyscore p s ts k lo hi : store * reply :=
   end.
 
 (* ---------- list ---------- *)
-Definition list_meta (ud : option (Z * Z)) : Z * Z * Z :=       (* head, tail, size: parseListMeta *)
-  match ud with None => (list_initial_seq, list_initial_seq, 0) | Some (a, b) => (a, b, b - a + 1) end.
 Definition list_set_meta (s : store) (k : bytes) (h : hdr) (hd tl : Z) : option store :=   (* lSetMeta *)
   let size := tl - hd + 1 in
   if size <? 0 then None else if size =? 0 then Some (meta_del s TL k) else Some (meta_put s TL k (mkM h hd tl)).
@@ -490,7 +475,7 @@ Definition do_lpush p s ts k (head : bool) vs : store * reply :=
   if Z.of_nat (length vs) >? max_batch_num then (s, RErr) else
   match coll_prepare p s ts TL k with
   | (h, ud, _) =>
-      match list_meta ud with
+      match list_meta_of ud with
       | (hd, tl, size) =>
           match vs with
           | [] => (s, RInt size)
@@ -515,7 +500,7 @@ Definition do_lpop p s ts k (head : bool) : store * reply :=
   match coll_header p s ts TL k with
   | (h, ud, ex) =>
       if not_exist_or_expired ud ex then (s, RNil) else
-      match list_meta ud with
+      match list_meta_of ud with
       | (hd, tl, size) =>
           if size =? 0 then (s, RNil) else
           let seq := if head then hd else tl in
@@ -531,7 +516,7 @@ Definition do_lpop p s ts k (head : bool) : store * reply :=
   end.
 
 (* ---------- one write command ---------- *)
-Definition step (p : policy) (s : store) (ts now : Z) (c : cmd) : store * reply :=
+Definition step (p : policy) (s : store) (ts : Z) (c : cmd) : store * reply :=
   match c with
   | CSet k v => do_set p s ts k v
   | CSetEx k dur v => do_setex p s ts k dur v
@@ -544,7 +529,7 @@ Definition step (p : policy) (s : store) (ts now : Z) (c : cmd) : store * reply 
   | CDel ks => do_del s ks
   | CExpire t k dur => do_expire p s ts t k dur
   | CPersist t k => do_persist p s ts t k
-  | CClear t k => match t with TK => (s, RErr) | _ => coll_clear p s ts now t k end
+  | CClear t k => match t with TK => (s, RErr) | _ => coll_clear p s ts t k end
   | CHSet k f v nx => do_hset p s ts k f v nx
   | CHMSet k fvl => do_hmset p s ts k fvl
   | CHDel k fs => coll_rem p s ts TH k fs
@@ -580,13 +565,13 @@ Definition read_coll (p : policy) (s : store) (now : Z) (t : ty) (k : bytes) : o
                    match t with
                    | TZ => firstn (Z.to_nat (size_of ud)) (isort zorder (el_of s t k (h_ver h)))   (* zrange 0 -1: count = size *)
                    | TS => firstn (Z.to_nat (size_of ud)) (sorted_els (el_of s t k (h_ver h)))     (* sMembersN(num = size) *)
-                   | TL => match list_meta ud with
+                   | TL => match list_meta_of ud with
                            | (hd, tl, _) => filter (fun e => match fst e with SI i => (hd <=? i) && (i <=? tl) | SB _ => false end)
                                                    (sorted_els (el_of s t k (h_ver h)))
                            end
                    | _ => sorted_els (el_of s t k (h_ver h))
                    end in
-      let len := if dead then 0 else match t with TL => snd (list_meta ud) | _ => size_of ud end in
+      let len := if dead then 0 else match t with TL => snd (list_meta_of ud) | _ => size_of ud end in
       mkO (negb dead) (match ud with None => -1 | Some _ => ttl_of p h now end) len items
   end.
 Definition read (p : policy) (s : store) (now : Z) (t : ty) (k : bytes) : obs :=
